@@ -3,10 +3,18 @@ from checks import wire_checks
 
 LEVEL = "proof"
 MANIFEST = dict(
-    text="API histories (constructors, operator/, setters, option edits) run on the real classes and on the Lean model; getters must agree after every step and the wire round trip must preserve the view; codec-inverse theorems for the modelled typed fields/options.",
-    note="Proof covers the Lean models of the classes listed in the evidence (modelled_classes) and the generic backbone; "
-         "the tie is differential correspondence under sanitizers; unmodelled classes get the implementation-side oracle only. "
-         "Trusted: Lean kernel + standard axioms, hand-written models, harness, generators, translator/gen_tags.py.",
+    text="Lean 4: every modelled public constructor establishes and every modelled API call preserves the class invariant (cached option sizes "
+         "exact), getters form a last-write map, option containers obey search/add/remove laws, typed option codecs are inverse under explicit "
+         "representability predicates (each excluded point executed on the real code: rejected, or recorded as a known finding with a machine-"
+         "checked refutation). API histories run on the real classes and on the model; getters must agree after every step and the wire round "
+         "trip must preserve the view.",
+    note="The theorems are about hand-written, code-shaped Lean models of 53 entry classes in seven families (link layers, IPv4 + options / AH / ESP, "
+         "IPv6 + extension headers, TCP + options / UDP, ICMP / ICMPv6 + extensions, DHCP / DHCPv6 / BootP / RTP / VXLAN / ARP / STP, 802.11 / "
+         "RadioTap / EAPOL; list in the evidence: modelled_classes); the tie to the C++ is differential correspondence of every line under "
+         "ASan/UBSan/LSan plus the Lean spec oracle evaluated on the implementation's own output; DNS as an entry class and the paths "
+         "the model cannot express (host routing table in IP::prepare_for_serialize, EAPOL null result) get the implementation-side oracle "
+         "only (evidence: unmodelled_lines). Trusted: Lean kernel + propext/Classical.choice/Quot.sound, the models, harness, generators, "
+         "translator/gen_tags.py; allocator / lifetime behaviour is observed by the sanitizers, not proved.",
     technique="Lean 4 proof over executable byte-level models + model/impl correspondence + spec oracle on impl output",
     design="DESIGN.md §6 C04")
 
